@@ -255,11 +255,13 @@ fn update(cx: &CaseCtx, rep: &mut Report, rng: &mut Rng) {
 		pipe_writer = Some(std::thread::spawn(move || {
 			use std::io::Write;
 			let Ok(mut f) = std::fs::OpenOptions::new().write(true).open(&fifo) else { return };
-			let cut = text[..text.len() / 2].rfind('\n').map(|i| i + 1).unwrap_or(text.len() / 2);
-			let _ = f.write_all(text[..cut].as_bytes());
+			// (bytes, not characters: the middle of the text may lie inside a multi-byte character)
+			let bytes = text.as_bytes();
+			let cut = bytes[..bytes.len() / 2].iter().rposition(|b| *b == b'\n').map(|i| i + 1).unwrap_or(bytes.len() / 2);
+			let _ = f.write_all(&bytes[..cut]);
 			let _ = f.flush();
 			std::thread::sleep(std::time::Duration::from_millis(300));
-			let _ = f.write_all(text[cut..].as_bytes());
+			let _ = f.write_all(&bytes[cut..]);
 		}));
 		rep.count("update_cases_with_the_table_from_a_named_pipe", 1);
 	} else if std::fs::write(dir.join("data.csv"), &csv.text).is_err() {
